@@ -40,6 +40,10 @@ structure Cfg where
       consistently with its comparator, which this repair guarantees (no other model statement
       depends on the flag). -/
   setRebuiltAfterPacking : Bool
+  /-- not a pool repair: `memory::clone()` of a 0-byte memory returns an empty memory (true) or
+      throws from setDtype on the uninitialised result of malloc (false); the state is unchanged
+      either way -/
+  cloneEmptyReturnsEmpty : Bool
 deriving Repr, DecidableEq
 
 /-- all repairs present -/
@@ -558,8 +562,10 @@ def step (c : Cfg) (s : State) : Op → State × Res
     else
       match s.readSlot j with
       | none => (s, .badOp)
-      -- a zero-byte clone: malloc returns an uninitialised memory and clone's setDtype throws
-      | some b => if b.length = 0 then (s, .err) else (s.newBuf k b.length true b, .ok)
+      -- a zero-byte clone: malloc returns an uninitialised memory; clone returns it or its setDtype throws
+      | some b =>
+        if b.length = 0 then (s, if c.cloneEmptyReturnsEmpty then .empty else .err)
+        else (s.newBuf k b.length true b, .ok)
   | .freeall =>
     let s1 := releaseAllFrom c s NSLOT
     ((s1.freePool 0).freePool 1, .ok)
